@@ -225,7 +225,7 @@ func runC20(c *fw.Ctx) {
 		panic(err)
 	}
 	defer os.RemoveAll(dir)
-	n := c.N(700, 20000)
+	n := c.N(2000, 30000)
 	for i := 0; i < n; i++ {
 		id := "case/" + itoa(i)
 		if !c.Want(i, id) {
